@@ -4,6 +4,7 @@ package ctl
 
 import (
 	"bufio"
+	"compress/gzip"
 	"encoding/csv"
 	"fmt"
 	"io"
@@ -61,3 +62,9 @@ func UnguardedIndex(f []string) string { return f[3] }
 
 // WritesParam modifies its input slice (PURE).
 func WritesParam(a []byte) { a[0] = 1 }
+
+// Gunzip wraps the stream in a decompressor (LAYER).
+func Gunzip(r io.Reader) (io.Reader, error) { return gzip.NewReader(r) }
+
+// Trunc converts a float to an int (NUM-KIND).
+func Trunc(x float64) int { return int(x) }
